@@ -4,6 +4,8 @@ from mygrad.operation_base import Operation
 
 
 class Where(Operation):
+    weak_python_scalars = True
+
     def __call__(self, a, b, *, condition):
         self.variables = (a, b)
         self.condition = np.asarray(condition, dtype=bool)
